@@ -276,6 +276,8 @@ def r7_strict_parsing_and_fixed_paths(ctx):
 
 
 def run(ctx):
+    from . import effects
+    effects.check_property(ctx, "C18")    # R18.E: no operation on shared protocol state outside the reviewed table
     r7_strict_parsing_and_fixed_paths(ctx)
     r6_info_is_about_the_leaf(ctx)
     r1_r5_reload(ctx)
